@@ -161,6 +161,13 @@ def build(raw: dict) -> dict:
         if mod["all"]:
             mod["all_form"] = spec.get("form", "list")
             mod["_stars"] = spec.get("stars", True)
+    # lazy-loading layout: a re-export listed in __all__ may be imported under `if TYPE_CHECKING:` only (public because
+    # listed; Griffe marks it runtime=False).  Never for names that are not listed: their publicness is not documented.
+    for p in order:
+        for m in mods[p]["body"]:
+            if m.pop("_tc", False) and m["k"] == "imp" and mods[p]["all"] and m["name"] in mods[p]["all"]:
+                m["tc"] = True
+
     # an empty __all__ assembled from another module's empty __all__
     for p in order:
         mod = mods[p]
@@ -339,6 +346,8 @@ def _concrete(rmem: dict, p: str, order: list[str], named: dict, children: dict)
     node = _concrete_import(rmem, p, order, named)
     if node is not None and rmem.get("rel") and node["src"] != EXT_MOD:
         node["rel"] = True
+    if node is not None and rmem.get("tc"):
+        node["_tc"] = True
     return node
 
 
@@ -403,6 +412,8 @@ def _render_member(m: dict, indent: str = "", where: tuple[str, bool] | None = N
         src = m["src"]
         if m.get("rel") and where is not None:
             src = _relative_source(src, *where) or src
+        if m.get("tc"):
+            return [f"{indent}if TYPE_CHECKING:", f"{indent}    from {src} import {m['tgt']}{as_}"]
         return [f"{indent}from {src} import {m['tgt']}{as_}"]
     if k == "cls":
         bases = f"({', '.join(m['bases'])})" if m["bases"] else ""
@@ -439,6 +450,8 @@ def render(model: dict) -> dict[str, str]:
         lines: list[str] = []
         if mod.get("doc"):
             lines.append(f'"""module doc {mod["doc"]}"""')
+        if any(m.get("tc") for m in mod["body"]):
+            lines.append("from typing import TYPE_CHECKING")
         for m in mod["body"]:
             lines += _render_member(m, where=(p, mod["pkg"]))
         if mod["all"] is not None:
@@ -529,8 +542,8 @@ class Pkg:
         if allv is not None:
             out = []
             for n in allv:
-                if n not in out and f"{src}.{n}" in self.ent:
-                    out.append(n)
+                if n not in out and f"{src}.{n}" in self.ent and not self.ent[f"{src}.{n}"][1].get("tc"):
+                    out.append(n)  # is_wildcard_exposed: listed and available at runtime (not type-guarded)
             return out
         return [self.ent[k][1]["name"] for k in self.kids[src] if self.ent[k][0] != "module" and not self.ent[k][1]["name"].startswith("_")]
 
